@@ -47,6 +47,8 @@ class RichWavEditor:
                         _index=allocable_ids.pop(),
                     )
                 )
+                # a path repeated in the same request must not take a second slot
+                wavs_already_in_wav_section.add(wav_file)
         return RichWavSection(_wavs=wavs_to_add)
 
     def _build_unique_ordered_wavs(self, wav_files: list[str]) -> list[str]:
